@@ -77,7 +77,10 @@ def generated_configs(n, seed):
                     "noiseWeight": {"expon": [1.0]}, "noiseScale": 0.001, "timeWindowSize": [10, 30], "orderMargin": [0.0, 0.1],
                     "marginType": rng.choice(["fixed", "normal"])}
         cfg["MM"] = {"class": "MarketMakerAgent", "numAgents": 1, "markets": [names[0]], "assetVolume": 50, "cashAmount": 10000,
-                     "targetMarket": names[0], "netInterestSpread": 0.02, "orderTimeLength": 2}
+                     "targetMarket": names[0], "orderTimeLength": 2,
+                     # a constant, a range (larger bound first: accepted as it is, and left as it is), a named distribution:
+                     # whatever is drawn comes from the generator handed to the runner
+                     "netInterestSpread": [0.02, [0.03, 0.01], {"uniform": [0.01, 0.03]}, {"uniform": [0.04, 0.02]}][i % 4]}
         if rng.random() < 0.6:
             # inheritance meets id ranges: the parent declares a from/to range, is instantiated itself, and a listed child
             # extends it with its own range (listed before or after its parent)
